@@ -747,25 +747,25 @@ Definition s3_more : list op := [OAppend 0 10].
 Definition stale_hist : list op := [OEnsure 0 300; OAppend 0 10].
 
 Lemma s7_witness :
-  env_runb v_s7 init 0 s7_hist = true /\ env_runb v_s7 (crash v_s7 36 s7_hist) 2 s7_more = true
-  /\ has_ok (compile v_s7 (crash v_s7 36 s7_hist) 2 (OAppend 0 10)) = true
-  /\ replay_validated (run_ops v_s7 (crash v_s7 36 s7_hist) 2 s7_more) = None
-  /\ torn (truth (crash v_s7 36 s7_hist)) = true.
+  env_runb v_s7 init 0 s7_hist = true /\ env_runb v_s7 (crash v_s7 38 s7_hist) 2 s7_more = true
+  /\ has_ok (compile v_s7 (crash v_s7 38 s7_hist) 2 (OAppend 0 10)) = true
+  /\ replay_validated (run_ops v_s7 (crash v_s7 38 s7_hist) 2 s7_more) = None
+  /\ torn (truth (crash v_s7 38 s7_hist)) = true.
 Proof. vm_compute. repeat split; reflexivity. Qed.
 
 Lemma s3_witness :
-  env_runb v_s3 init 0 s3_hist = true /\ env_runb v_s3 (crash v_s3 62 s3_hist) 3 s3_more = true
-  /\ has_ok (compile v_s3 (crash v_s3 62 s3_hist) 3 (OAppend 0 10)) = true
-  /\ replay_validated (crash v_s3 62 s3_hist) <> None
-  /\ replay_validated (run_ops v_s3 (crash v_s3 62 s3_hist) 3 s3_more) = None.
+  env_runb v_s3 init 0 s3_hist = true /\ env_runb v_s3 (crash v_s3 64 s3_hist) 3 s3_more = true
+  /\ has_ok (compile v_s3 (crash v_s3 64 s3_hist) 3 (OAppend 0 10)) = true
+  /\ replay_validated (crash v_s3 64 s3_hist) <> None
+  /\ replay_validated (run_ops v_s3 (crash v_s3 64 s3_hist) 3 s3_more) = None.
 Proof. vm_compute. repeat split; try reflexivity. discriminate. Qed.
 
 (* open finding (read side of S3): after the crash the full sidecar is a well-formed PROPER prefix of the
    thread's truth stream, and replay_events serves it *)
 Lemma stale_witness :
   env_runb fixed init 0 stale_hist = true
-  /\ snd (replay_events (crash fixed 41 stale_hist) 0) = Some [mkf 0 0 0 300 None]
-  /\ stream 0 (frames_of (truth (crash fixed 41 stale_hist))) = [mkf 0 0 0 300 None; mkf 0 1 4 10 None].
+  /\ snd (replay_events (crash fixed 43 stale_hist) 0) = Some [mkf 0 0 0 300 None]
+  /\ stream 0 (frames_of (truth (crash fixed 43 stale_hist))) = [mkf 0 0 0 300 None; mkf 0 1 4 10 None].
 Proof. vm_compute. repeat split; reflexivity. Qed.
 
 (* non-vacuity: a history with every kind of operation, crashed in the middle, restarted, continued *)
